@@ -76,6 +76,22 @@ def gen_plan(ch: Chooser, tier: str) -> dict[str, Any]:
         # only the storage itself keeps its records out of the essence
         op1['settings']['storage'] = {'progress': 'annotations', 'prefix': ch.choice(['kopf.dev', 'kopf.example.com']),
                                       'v1': ch.bool(0.7)}
+    if len(plan['operators']) == 1 and ch.bool(0.15):
+        # a handler on a field of the status stanza: that field (and nothing else of the status) is essential then;
+        # often with a diff-base kept in two places at once (as during a migration from one storage to the other)
+        op1['handlers'].append({'id': 'fst', 'kind': 'field', 'opts': {'field': 'status.observed'},
+                                'script': [{'do': 'ok', 'dur': 0.0}]})
+        if ch.bool(0.6):
+            st_ = dict(op1['settings'].get('storage') or {'progress': 'annotations'})
+            st_['diffbase'] = 'multi'
+            op1['settings']['storage'] = st_
+        names_ = sorted({o['body']['metadata']['name'] for o in plan['objects']}) or ['w0']
+        for k in range(ch.int(1, 3)):
+            a = changes.fix_sub(changes.gen_edit(ch, ch.choice(names_), 700 + k, 'status'),
+                                plan['kinds'][0].get('status_subresource', False))
+            a['t'] = round(ch.float(1.0, plan['faults_stop']), 6)
+            plan['actions'].append(a)
+        plan['actions'].sort(key=lambda a: a['t'])
     if len(plan['operators']) == 1 and ch.bool(0.06):
         # a handler on the whole annotations stanza (a field path like any other)
         op1['handlers'].append({'id': 'fwa', 'kind': 'field', 'opts': {'field': 'metadata.annotations'},
@@ -152,6 +168,8 @@ def oracle(run: runner.Run, oc: Outcome) -> None:
             continue
         st = common.StorageRef(opspec)
         hspecs = common.handler_specs(run, opid)
+        xs = sorted({str(h.get('opts', {}).get('field')) for h in hspecs.values()
+                     if str(h.get('opts', {}).get('field') or '').startswith('status.')})
         wa = any(h.get('opts', {}).get('field') == 'metadata.annotations' for h in hspecs.values())
 
         def _sig(sig: str, a: Any, b: Any) -> str:
@@ -168,7 +186,7 @@ def oracle(run: runner.Run, oc: Outcome) -> None:
                 if view is None or s.etype == 'DELETED':
                     continue
                 deleting = (view.get('metadata') or {}).get('deletionTimestamp') is not None
-                ess = common.ref_essence(view, own_prefix=st.prefix)
+                ess = common.ref_essence(view, own_prefix=st.prefix, extra_status_fields=xs)
                 # (a) an update is declared exactly when the essence of the view differs from the base stored in it
                 # (the base was checked against the reference essence of its own view when it was stored: (b))
                 base_in_view = st.last_handled(view)
@@ -185,7 +203,7 @@ def oracle(run: runner.Run, oc: Outcome) -> None:
                                    and int(closing_view['metadata']['resourceVersion']) <
                                    int(t.after['metadata']['resourceVersion']) <= int(s.rv)]
                         if any(common.is_operator_actor(run, t.actor) or
-                               common.essence_eq(common.ref_essence(t.before, own_prefix=st.prefix), common.ref_essence(t.after, own_prefix=st.prefix)) for t in between):
+                               common.essence_eq(common.ref_essence(t.before, own_prefix=st.prefix, extra_status_fields=xs), common.ref_essence(t.after, own_prefix=st.prefix, extra_status_fields=xs)) for t in between):
                             after_nonessential += 1
                 if s.reason == 'noop' and base_in_view is not None and not deleting:
                     if not common.essence_eq(base_in_view, ess):
@@ -244,10 +262,10 @@ def oracle(run: runner.Run, oc: Outcome) -> None:
                 if obj['metadata'].get('deletionTimestamp') is not None or not has_cu:
                     continue
                 lh = st.last_handled(obj)
-                if not common.essence_eq(lh, common.ref_essence(obj, own_prefix=st.prefix)):
-                    oc.add('C04/change-missed', _sig('last-handled-stale-at-quiescence', lh, common.ref_essence(obj, own_prefix=st.prefix)),
+                if not common.essence_eq(lh, common.ref_essence(obj, own_prefix=st.prefix, extra_status_fields=xs)):
+                    oc.add('C04/change-missed', _sig('last-handled-stale-at-quiescence', lh, common.ref_essence(obj, own_prefix=st.prefix, extra_status_fields=xs)),
                            f"{opid}: {obj['metadata']['name']}: last-handled {lh!r} differs from the final essence "
-                           f"{common.ref_essence(obj, own_prefix=st.prefix)!r}", op=opid, uid=obj['metadata']['uid'])
+                           f"{common.ref_essence(obj, own_prefix=st.prefix, extra_status_fields=xs)!r}", op=opid, uid=obj['metadata']['uid'])
     if run.step_capped:
         oc.add('C04/ping-pong', 'step-cap', f"the run hit the scheduler's step cap at t={t_end:.1f}: the operators never settle")
     oc.probes['probe.update-after-nonessential-write'] = after_nonessential
